@@ -107,6 +107,7 @@ func Scenarios() []History {
 		{Name: "Define", Signer: "o1", Svc: "s1"},
 		{Name: "Bind", Signer: "o1", Svc: "s1", Prov: "p1", Deposit: 12, DShape: "ok", Pr: pr(5), Qos: 1},
 		{Name: "UpdateBinding", Signer: "o1", Svc: "s1", Prov: "p1", HasPr: true, Pr: pr(100)},
+		{Name: "UpdateBinding", Signer: "o1", Svc: "s1", Prov: "p1", HasPr: true, Pr: pr(100), Deposit: 100, DShape: "ok"}, // still 88 short
 		{Name: "UpdateBinding", Signer: "o1", Svc: "s1", Prov: "p1", HasPr: true, Pr: pr(100), Deposit: 188, DShape: "ok"},
 		{Name: "UpdateBinding", Signer: "o1", Svc: "s1", Prov: "p1", HasPr: true, Pr: pr(1)},
 		{Name: "UpdateBinding", Signer: "o1", Svc: "s1", Prov: "p1", Qos: 3},
@@ -412,7 +413,9 @@ func Scenarios() []History {
 		{Name: "Respond", Signer: "p1", Rid: rid(1, 1, 1, 0), Kind: "valid"},
 		{Name: "Respond", Signer: "p1+", Rid: rid(1, 1, 1, 1), Kind: "valid"},
 		{Name: "Obs"},
+		{Name: "Withdraw", Signer: "c1", Prov: "p1-"}, // a stranger names an address nobody registered (a byte-prefix of p1)
 		{Name: "Withdraw", Signer: "o1", Prov: "p1"},
+		{Name: "Withdraw", Signer: "o2"}, // owner-wide, the owner's only provider has a 21-byte address
 		{Name: "Withdraw", Signer: "o2", Prov: "p1+"},
 		eb(1), eb(1),
 	}
